@@ -243,6 +243,12 @@ def classify(check, info, case):
             return "grid.cell-membership-inconsistent-with-pointset-measure"
         if nested and kinds_ & {"polygon", "rect", "circle", "sector"}:
             return "intersection.nested-trueContainsPoint-falls-back-to-footprints"
+    if check == "intersects" and "grid" in (ka, kb) and {ka, kb} <= {"grid", "pointset"}:
+        return "grid.cell-membership-inconsistent-with-pointset-measure"
+    if check in ("op.error", "intersects.error", "lazy.error") and "TopologyException" in err and {ka, kb} & {"box", "spheroid", "meshvol", "view"}:
+        return "meshvolume.intersect-polygon-invalid-slice-geometry"
+    if check == "result.sample" and nested and rc == "MeshVolumeRegion":
+        return "mesh.nested-boolean-degenerate-result"
     if check == "intersects" and info.get("obs") is True and {ka, kb} & {"pointset", "grid"} and {ka, kb} & {"polygon", "rect"}:
         return "pointset.intersects-ignores-height-of-planar-operand"
     if check == "containsRegion" and info.get("obs") is True and za_ not in (None, 0) and kb == "polyline":
@@ -310,6 +316,9 @@ def alt_models(A, B, SA, SB):
             out.append((SECTOR_TRUNC, which, alt))
         if X.kind == "polyline":
             out.append((POLYLINE_EXACT, which, _PolylineAsImplemented(X, SX)))
+    both = [(k, w, a) for k, w, a in out if k == SECTOR_TRUNC]
+    if len(both) == 2:
+        out.append((SECTOR_TRUNC, "BOTH", (both[0][2], both[1][2])))
     return out
 
 
@@ -768,17 +777,18 @@ def check_result(mon, R, op, A, B, P, mA, mB, fA, fB, dA, dB, rng, label="", var
     elif k == "error":
         mon.report("result.aabb-error", f"A.{opn}(B) -> {rc}.AABB raised {bb}", dict(info0, error=bb))
     # a few samples of the result must be members of the expected set (cross-check with C03)
-    costly = False
-    if hasattr(R, "num_samples"):
-        # MeshVolumeRegion draws by rejection from the bounding box with a batch size growing as the volume fraction
-        # shrinks (up to 1e6 points per draw for sliver-like boolean results): not sampled here
-        k, ns = outcome(lambda: R.num_samples)
-        costly = k != "ok" or ns > 400
+    from rt.regionrun import Watchdog, sampling_cost_guard, with_watchdog
+
+    costly = sampling_cost_guard(R)
     if costly:
-        mon.bump("result_sampling_skipped_tiny_volume_fraction")
+        mon.bump("result_sampling_skipped_" + costly.replace(" ", "_"))
         pts, rej, err, unsup = np.zeros((0, 3)), 0, None, None
     else:
-        pts, rej, err, unsup = draw(R, 12, max_tries=150)
+        try:
+            pts, rej, err, unsup = with_watchdog(90, draw, R, 12, 150)
+        except Watchdog:
+            mon.skip("result_sampling_watchdog")
+            pts, rej, err, unsup = np.zeros((0, 3)), 0, None, None
     if err:
         mon.report("result.sample-error", f"A.{opn}(B) -> {rc}.uniformPointInner raised {err}; A={_short(A)} B={_short(B)}", dict(info0, error=err))
     if len(pts):
@@ -993,8 +1003,15 @@ def check_case(case, C, S):
                 saved = mon.alts
                 mon.alts = []
                 for key, w_, alt in saved:
-                    A2, B2 = (alt, B) if w_ == "A" else (A, alt)
-                    mon.alts.append((key, "BOTH", (ro.Combo(op1, A2, B2), A2 if which == "A" else B2)))
+                    if w_ == "BOTH":
+                        A2, B2 = alt
+                    else:
+                        A2, B2 = (alt, B) if w_ == "A" else (A, alt)
+                    X2 = A2 if which == "A" else B2
+                    # the inner result and the outer operand may use the as-implemented variant independently
+                    mon.alts.append((key, "BOTH", (ro.Combo(op1, A2, B2), X2)))
+                    mon.alts.append((key, "BOTH", (ro.Combo(op1, A2, B2), X)))
+                    mon.alts.append((key, "BOTH", (inner, X2)))
                 check_result(mon, R2, op2, inner, X, P[sel], m1[sel], mX[sel], f1[sel], fX[sel], None, None, rng, label=f"[nested: A:=(A.{OPNAME[op1]}(B)), B:={which}]", variants=variants)
                 mon.alts = saved
 
@@ -1033,7 +1050,13 @@ def check_case(case, C, S):
             mon.bump("containsRegion_definite")
             mon.bump(f"containsRegion_expected_{want}")
             if bool(r) != want:
-                mon.report("containsRegion", f"A.containsRegion(B) = {bool(r)} but B is {'a subset of A' if want else 'not a subset of A (a point of B lies outside A)'}; A={_short(A)} B={_short(B)}", {"obs": bool(r)})
+                ak = None
+                if any(k_ == SECTOR_TRUNC for k_, _, _ in mon.alts) and hasattr(SA, "polygons") and hasattr(SB, "polygons"):
+                    try:
+                        ak = SECTOR_TRUNC if bool(SA.polygons.contains(SB.polygons)) == bool(r) else None
+                    except Exception:
+                        ak = None
+                mon.report("containsRegion", f"A.containsRegion(B) = {bool(r)} but B is {'a subset of A' if want else 'not a subset of A (a point of B lies outside A)'}; A={_short(A)} B={_short(B)}", {"obs": bool(r), "alt_key": ak})
 
     # --- lazily constructed operands: random parameters (sampled) and delayed arguments (evaluated)
     if A.kind in LAZYABLE or B.kind in LAZYABLE:
